@@ -6,7 +6,9 @@
   before parents, reset of the memoised facts of every notified node), `sym_rebind` (notification
   unless `skip_notification` / `notify_on_change(False)`), the accessor writes of dict.py / list.py /
   object.py (single update, notified under `flags.is_change_notification_enabled()`), `Dict.update`
-  (`skip_notification=True`) and the mutators that notify nobody (`clear`, `reverse`, `popitem`).
+  (`skip_notification=True`). THE MODEL MIRRORS THE TREE WITH fixes/C09-F55.patch AND fixes/C09-F110.patch
+  APPLIED: `clear`, `popitem`, `sort`, `reverse` report what they removed / moved, `del l[-1]` reports
+  the position.
 
   Simplifications (stated in the evidence): the three memoised facts (`_sym_missing_values`,
   `_sym_nondefault_values`, `_sym_puresymbolic`) are reset together by the code and are read
@@ -190,7 +192,7 @@ inductive Op where
   | extend (vs : List T)                  -- l.extend(vs) / l += vs: one batched notification
   | rebind (pairs : List (Path × T))      -- paths relative to the receiver
   | update (kvs : List (Key × T))         -- Dict.update: rebind with skip_notification=True
-  | clear | reverse | popitem             -- mutators that notify nobody
+  | clear | reverse | popitem | sort      -- (fix C09-F55) report what they removed / moved
   -- list operations that shift positions (list.py: insert, __delitem__ / pop / remove, slices, `*=`)
   | insert (i : Int) (v : T)
   | delIdx (i : Int)                      -- del l[i] / l.pop(i)
@@ -263,14 +265,14 @@ def finish (root' : T) (ups : List (Update × Path)) (notify : Bool) : Out :=
   else { tree := root', ok := true, events := [] }
 
 inductive OpKind where
-  | setKey | delKey | append | extend | rebind | update | clear | reverse | popitem
+  | setKey | delKey | append | extend | rebind | update | clear | reverse | popitem | sort
   | insert | delIdx | remove | setSlice | delSlice | imul
   deriving DecidableEq, Repr
 
 def Op.kind : Op → OpKind
   | .setKey _ _ => .setKey | .delKey _ => .delKey | .append _ => .append | .extend _ => .extend
   | .rebind _ => .rebind
-  | .update _ => .update | .clear => .clear | .reverse => .reverse | .popitem => .popitem
+  | .update _ => .update | .clear => .clear | .reverse => .reverse | .popitem => .popitem | .sort => .sort
   | .insert _ _ => .insert | .delIdx _ => .delIdx | .remove _ => .remove | .setSlice _ _ _ _ => .setSlice
   | .delSlice _ _ _ => .delSlice | .imul _ => .imul
 
@@ -370,9 +372,51 @@ def appendEnts (n : Nat) : List T → List (Nat × Option T × Option T)
   | [] => []
   | v :: vs => (n, none, some v) :: appendEnts (n + 1) vs
 
-/-- `l *= k`: `clear()` for k <= 0 (notifies nobody), else `extend` with k-1 copies. -/
+def clearEnts (n : Nat) : List T → List (Nat × Option T × Option T)
+  | [] => []
+  | v :: vs => (n, some v, none) :: clearEnts (n + 1) vs
+
+/-- `List.clear()` (fix C09-F55): every removed item is reported (item -> MISSING) at its position. -/
+def editClear (xs : List T) : Option Edit := some { vals := [], ents := clearEnts 0 xs }
+
+/-- Positions whose item is not the former one after an in-place reordering (`new is not old`);
+`src i` = the former position of the item now at `i`. -/
+def movedEnts (old new : List T) (src : Nat → Nat) : Nat → List (Nat × Option T × Option T)
+  | 0 => []
+  | c + 1 =>
+    let i := old.length - (c + 1)
+    let rest := movedEnts old new src c
+    match old[i]?, new[i]? with
+    | some o, some n => if src i == i || atomSame o n then rest else (i, some o, some n) :: rest
+    | _, _ => rest
+
+/-- `List.reverse()` (fix C09-F55). -/
+def editReverse (xs : List T) : Option Edit :=
+  some { vals := xs.reverse, ents := movedEnts xs xs.reverse (fun i => xs.length - 1 - i) xs.length }
+
+def intOf? : T → Option Int
+  | .leaf (.int i) => some i
+  | _ => none
+
+def allInts : List T → Option (List Int)
+  | [] => some []
+  | t :: ts => match intOf? t, allInts ts with
+    | some i, some is => some (i :: is)
+    | _, _ => none
+
+/-- `List.sort()` (fix C09-F55) on a list of ints (a list of at most one item is left alone; other
+lists are not comparable element-wise: TypeError, the list in an unspecified order — not modelled).
+Equal ints are the same object, so `src` plays no role. -/
+def editSort (xs : List T) : Option Edit :=
+  match allInts xs with
+  | some is =>
+    let ys := (Pg.C08.sortInts is).map fun i => T.leaf (.int i)
+    some { vals := ys, ents := movedEnts xs ys (fun _ => xs.length) xs.length }
+  | none => if xs.length ≤ 1 then some { vals := xs, ents := [] } else none
+
+/-- `l *= k`: `clear()` for k <= 0, else `extend` with k-1 copies. -/
 def editIMul (k : Int) (xs : List T) : Option Edit :=
-  if k ≤ 0 then some { vals := [], ents := [] }
+  if k ≤ 0 then editClear xs
   else
     let copies := repeatVals xs (k.toNat - 1)
     some { vals := xs ++ copies, ents := appendEnts xs.length copies }
@@ -395,6 +439,28 @@ def applyEdit (root : T) (recv : Path) (notify : Bool) (f : List T → Option Ed
       finish (resetChain (mapAt (setVals e.vals) root recv) recv)
         (e.ents.map fun x => ({ path := recv ++ [Key.i x.1], old := x.2.1, new := x.2.2 }, recv)) notify
   | _ => { tree := root, ok := false, events := [] }
+
+/-- `Dict.clear()` / `Dict.popitem()` (fix C09-F55): the removed keys are reported (value -> MISSING). -/
+def applyKeyEdit (root : T) (recv : Path) (notify : Bool)
+    (f : List (Key × T) → Option (List (Key × T) × List (Key × Option T × Option T))) : Out :=
+  match getAt root recv with
+  | some (.node _ .dict items) =>
+    match f items with
+    | none => { tree := root, ok := false, events := [] }
+    | some (items', ents) =>
+      finish (resetChain (mapAt (fun t => match t with
+          | .leaf a => .leaf a
+          | .node m k _ => .node m k items') root recv) recv)
+        (ents.map fun x => ({ path := recv ++ [x.1], old := x.2.1, new := x.2.2 }, recv)) notify
+  | _ => { tree := root, ok := false, events := [] }
+
+def dictClear (items : List (Key × T)) : Option (List (Key × T) × List (Key × Option T × Option T)) :=
+  some ([], items.map fun kv => (kv.1, some kv.2, none))
+
+def dictPopitem (items : List (Key × T)) : Option (List (Key × T) × List (Key × Option T × Option T)) :=
+  match items.getLast? with
+  | none => none                                   -- KeyError: the dict is empty
+  | some kv => some (items.dropLast, [(kv.1, some kv.2, none)])
 
 /-- One public call on the node at `recv`, inside `notify_on_change(notifyOn)`. -/
 def step (root : T) (recv : Path) (notifyOn : Bool) : Op → Out
@@ -438,9 +504,13 @@ def step (root : T) (recv : Path) (notifyOn : Bool) : Op → Out
     match writeAll root recv (kvs.map fun (k, v) => ([k], v)) [] with
     | none => { tree := root, ok := false, events := [] }
     | some (r', ups) => finish r' ups false                              -- skip_notification=True
-  | .clear => rawStep rawClear root recv
-  | .reverse => rawStep rawReverse root recv
-  | .popitem => rawStep rawPopitem root recv
+  | .clear =>
+    match getAt root recv with
+    | some (.node _ .list _) => applyEdit root recv notifyOn editClear
+    | _ => applyKeyEdit root recv notifyOn dictClear
+  | .reverse => applyEdit root recv notifyOn editReverse
+  | .sort => applyEdit root recv notifyOn editSort
+  | .popitem => applyKeyEdit root recv notifyOn dictPopitem
   | .insert i v => applyEdit root recv notifyOn (editInsert i v)
   | .delIdx i => applyEdit root recv notifyOn (editDelIdx i)
   | .remove a => applyEdit root recv notifyOn (editRemove a)
